@@ -83,9 +83,63 @@ func pktKey(p *astits.Packet) string {
 	return fmt.Sprintf("%d.%d.%d.%d", p.Header.PID, p.Header.ContinuityCounter, al, len(p.Payload))
 }
 
-var judges = map[string]func(impl string) bool{
+// parsePerPID splits the per-PID view into pid -> rendered data items
+func parsePerPID(s string) map[int][]string {
+	out := map[int][]string{}
+	for _, seg := range strings.Split(s, ";") {
+		if !strings.HasPrefix(seg, "pid=") {
+			continue
+		}
+		k := strings.Index(seg, ":")
+		var pid int
+		fmt.Sscanf(seg[4:k], "%d", &pid)
+		var items []json.RawMessage
+		if err := json.Unmarshal([]byte(seg[k+1:]), &items); err != nil {
+			panic("bad per-pid view: " + err.Error())
+		}
+		for _, it := range items {
+			out[pid] = append(out[pid], string(it))
+		}
+	}
+	return out
+}
+
+var judges = map[string]func(c *Case, impl string) bool{
+	// packet loss on the PIDs `faultPids`: every delivered datum is a datum of the loss-free output
+	// (`expect`), in order; other PIDs are unaffected; at most `maxMissing` data are missing
+	"loss": func(c *Case, impl string) bool {
+		exp := parsePerPID(c.str("expect"))
+		got := parsePerPID(impl)
+		fault := map[int]bool{}
+		for _, p := range c.ints("faultPids") {
+			fault[p] = true
+		}
+		for pid, items := range got {
+			e := exp[pid]
+			j := 0
+			for _, it := range items {
+				for j < len(e) && e[j] != it {
+					j++
+				}
+				if j == len(e) {
+					return false // delivered something that is not in the loss-free output (or out of order)
+				}
+				j++
+			}
+		}
+		for pid, e := range exp {
+			missing := len(e) - len(got[pid])
+			if !fault[pid] && missing != 0 {
+				return false
+			}
+			if fault[pid] && missing > int(c.num("maxMissing")) {
+				return false
+			}
+		}
+		return true
+	},
 	// no panic; end of stream is reached and is then returned by every later call
-	"eof-sticky": func(impl string) bool {
+	"eof-sticky": func(_ *Case, impl string) bool {
 		seen := false
 		for _, o := range strings.Split(impl, ",") {
 			if o == "panic" {
@@ -104,7 +158,7 @@ var judges = map[string]func(impl string) bool{
 		}
 		return seen
 	},
-	"no-panic": func(impl string) bool { return !strings.Contains(impl, "panic") },
+	"no-panic": func(_ *Case, impl string) bool { return !strings.Contains(impl, "panic") },
 }
 
 func init() {
@@ -271,7 +325,17 @@ func init() {
 		case "perpid":
 			byPid := map[uint16][]string{}
 			var pids []int
+			onlyPES := c.boolean("onlyPES")
+			excl := map[int]bool{}
+			if c.has("exclude") {
+				for _, x := range c.ints("exclude") {
+					excl[x] = true
+				}
+			}
 			for _, d := range datas {
+				if (onlyPES && d.PES == nil) || excl[int(d.PID)] {
+					continue
+				}
 				if _, ok := byPid[d.PID]; !ok {
 					pids = append(pids, int(d.PID))
 				}
@@ -281,6 +345,9 @@ func init() {
 			var parts []string
 			for _, p := range pids {
 				parts = append(parts, fmt.Sprintf("pid=%d:[%s]", p, strings.Join(byPid[uint16(p)], ",")))
+			}
+			if c.boolean("noErr") {
+				return strings.Join(parts, ";")
 			}
 			return strings.Join(parts, ";") + fmt.Sprintf(";errors=%d;end=%s", errors, ending)
 		}
@@ -298,5 +365,32 @@ func init() {
 			return "[" + strings.Join(qs, ",") + "]"
 		}
 		return strings.Join(seq, "|") + ";skip=" + q(skipLog) + ";parser=" + q(parserLog) + fmt.Sprintf(";stable=%v", stable)
+	}
+}
+
+func init() {
+	// pool: feed packets to a fresh packet pool, report what each add flushed and what the drain returns
+	ops["pool"] = func(c *Case) string {
+		var ps []*astits.Packet
+		if err := decode(c.Raw["packets"], &ps); err != nil {
+			panic(err)
+		}
+		pm := map[uint16]uint16{}
+		for _, p := range c.ints("pmtPIDs") {
+			pm[uint16(p)] = 1
+		}
+		flushed, drained := astits.VerifPoolAdd(pm, ps)
+		show := func(gs [][]*astits.Packet) string {
+			parts := make([]string, len(gs))
+			for i, g := range gs {
+				ks := make([]string, len(g))
+				for j, p := range g {
+					ks[j] = fmt.Sprintf("%d.%d", p.Header.PID, p.Header.ContinuityCounter)
+				}
+				parts[i] = "[" + strings.Join(ks, " ") + "]"
+			}
+			return strings.Join(parts, "")
+		}
+		return "flushed=" + show(flushed) + ";drained=" + show(drained)
 	}
 }
